@@ -86,7 +86,8 @@ def render_group(f, g, ind):
         elif it.kind == "ref":
             out.append(f'{ind}  <{x}:element ref={quoteattr(qname(f, it.ref))}{occurs_attrs(it.min, it.max, getattr(it, "explicit", False))}/>')
         else:
-            out.append(f'{ind}  <{x}:element name={quoteattr(it.name.xml)} type={quoteattr(qname(f, it.type))}{occurs_attrs(it.min, it.max, getattr(it, "explicit", False))}/>')
+            dflt = f' default={quoteattr(it.default)}' if getattr(it, "default", None) is not None else ""
+            out.append(f'{ind}  <{x}:element name={quoteattr(it.name.xml)} type={quoteattr(qname(f, it.type))}{occurs_attrs(it.min, it.max, getattr(it, "explicit", False))}{dflt}/>')
     out.append(f'{ind}</{x}:{g.kind}>')
     return out
 
@@ -104,6 +105,8 @@ def render_content(f, content, base, ind):
             out += render_group(f, content.group, inner_ind)
         for a in content.attrs:
             use = ' use="required"' if a.required else (' use="optional"' if getattr(a, "explicit", False) else "")
+            if getattr(a, "default", None) is not None and not a.required:
+                use += f' default={quoteattr(a.default)}'
             out.append(f'{inner_ind}<{x}:attribute name={quoteattr(a.name.xml)} type={quoteattr(qname(f, a.type))}{use}/>')
     if base is not None:
         out.append(f'{ind}  </{x}:extension>')
